@@ -4,8 +4,9 @@ from .ty import parse_ty
 
 
 class ClassDef:
-    def __init__(self, name, bases=(), fields=None, statics=None, rec=False, optional=(), class_vars=None):
+    def __init__(self, name, bases=(), fields=None, statics=None, rec=False, optional=(), class_vars=None, truth_len=None):
         self.name = name
+        self.truth_len = truth_len   # class defines __len__ as len(self.<field>): truth value of an instance
         self.bases = list(bases)
         self.fields = {k: parse_ty(v) for k, v in (fields or {}).items()}
         self.statics = statics or {}
@@ -127,6 +128,8 @@ class Registry:
         return c
 
     def define(self, name, params, body):
+        if name in self.macros and (self.macros[name].params, self.macros[name].body) != (list(params), body):
+            raise ValueError("macro %s defined twice with different bodies" % name)
         self.macros[name] = Macro(name, params, body)
 
     def declare_fun(self, name, params, ret, heap=(), definition=None, by_value=False, prefix_recursive=False):
